@@ -12,6 +12,7 @@ import (
 	"encoding/json"
 	"fmt"
 	"os"
+	"path/filepath"
 	"reflect"
 	"sort"
 	"strings"
@@ -144,6 +145,11 @@ func main() {
 	loadSimFaithful()
 	realStdout = os.Stdout
 	devNull, _ = os.OpenFile(os.DevNull, os.O_WRONLY, 0)
+	if run.Replay != "" {
+		if abs, err := filepath.Abs(run.Replay); err == nil {
+			run.Replay = abs
+		}
+	}
 	scratch, cleanup := vlib.Scratch("c11")
 	scratchDir = scratch
 	os.Chdir(scratch) // threaded processors and some shared objects write side files into the CWD
@@ -204,7 +210,7 @@ func main() {
 	renderPanics := map[string]int{}
 	var notBuilt, renderPanicSamples []string
 	evals, rendered, simulated, childLoads, failingCases := 0, 0, 0, 0, 0
-	soAccepted := 0
+	soAccepted, loudRefusals := 0, 0
 	report := func(cr caseResult, extra []failure) {
 		all := append(append(append([]failure{}, cr.Out.Fails...), cr.Single...), extra...)
 		if len(all) > 0 {
@@ -260,6 +266,9 @@ func main() {
 		}
 		if cr.Out.Rendered {
 			rendered++
+		}
+		if cr.Out.LoudRefusal {
+			loudRefusals++
 		}
 		if cr.Out.Simulated {
 			simulated++
@@ -352,6 +361,7 @@ func main() {
 	run.Set("cases_failing", failingCases)
 	run.Set("static_opcodes", len(staticOps))
 	run.Set("fresh_process_loads", childLoads)
+	run.Set("loads_refused_with_an_error_when_opcode_cannot_be_recreated", loudRefusals)
 	run.Set("machines_rendered_both_sides", rendered)
 	run.Set("machines_simulated_both_sides", simulated)
 	run.Set("generator_panics_same_on_both_sides", renderPanics)
